@@ -167,3 +167,14 @@ PROPS["C09"] = dict(
     require_counters={"any": {"points_inside_limits": 100, "points_outside_limits": 500, "usability_cycles": 50, "corrupted_calls": 200}},
     assumptions=["symbol lengths above 70000 bytes are checked for acceptance only (no encode/decode cycle)", "ASan build: allocator_may_return_null=1 so absurd sizes behave like a failing malloc; -O3 build: RLIMIT_AS 6 GiB in the child"],
 )
+
+PROPS["C16"] = dict(
+    jobs=BOTH,
+    rule="every (k, r) with 0<=k<=17, 0<=r<=26 is offered to of_set_fec_parameters (in a child); for each accepted one: the check structure revealed by encoding unit vectors must be a d x l product single-parity code, "
+         "a random codeword must satisfy every check, and decoder sessions run on ALL 2^n received subsets for n<=16 (quick) / every accepted n<=24 (thorough), else all single and double losses plus samples; "
+         "both APIs, 3 orders, callbacks, early release; oracle = GF(2) rank (erasures determined?), ground truth bytes, allocation ledger at release. non-trivial = at least one source symbol decoded",
+    exhaustive_subspaces={"quick": ["all (k,r) in the window offered", "all 2^n subsets for accepted n<=16"], "thorough": ["all 2^n subsets for every accepted (k,r), n<=24"]},
+    budget_s={"quick": 1200, "thorough": 10800},
+    require_counters={"any": {"configurations_accepted": 5, "structures_verified": 5, "outcome_determined_recovered": 1000, "outcome_undetermined_incomplete": 1000}},
+    assumptions=_codec_assume,
+)
